@@ -23,6 +23,7 @@ import (
 	"os"
 	"runtime"
 	"sync"
+	"sync/atomic"
 	"testing"
 	"time"
 
@@ -43,6 +44,7 @@ type verifCmd struct {
 	Goroutines int      `json:"goroutines,omitempty"`
 	Results    int      `json:"results,omitempty"` // pump: number of results fed to processAttack
 	ErrEvery   int      `json:"err_every,omitempty"`
+	FailWrite  int      `json:"fail_write,omitempty"` // pump: the output fails from this Write call on (0 = never)
 }
 
 type verifDial struct {
@@ -68,6 +70,22 @@ type verifAns struct {
 	ObservedIn    float64 `json:"observed_bytes_in,omitempty"`
 	ObservedOut   float64 `json:"observed_bytes_out,omitempty"`
 	ObservedFail  float64 `json:"observed_fail,omitempty"`
+	Taken         int     `json:"taken,omitempty"` // pump: results the pump took from the channel
+}
+
+// verifFailingWriter fails every Write call from the n-th on (n = 0: never).
+type verifFailingWriter struct {
+	buf    bytes.Buffer
+	failAt int
+	n      int
+}
+
+func (w *verifFailingWriter) Write(p []byte) (int, error) {
+	w.n++
+	if w.failAt > 0 && w.n >= w.failAt {
+		return 0, fmt.Errorf("verif: injected write error at write %d", w.n)
+	}
+	return w.buf.Write(p)
 }
 
 func verifRun(c verifCmd) (a verifAns) {
@@ -163,8 +181,8 @@ func verifRun(c verifCmd) (a verifAns) {
 		// allows, with a fresh attacker, a gob encoder and Prometheus metrics
 		atk := vegeta.NewAttacker()
 		res := make(chan *vegeta.Result)
-		var buf bytes.Buffer
-		enc := vegeta.NewEncoder(&buf)
+		out := &verifFailingWriter{failAt: c.FailWrite}
+		enc := vegeta.NewEncoder(out)
 		sig := make(chan os.Signal, 1)
 		pm := prom.NewMetrics()
 		reg := prometheus.NewRegistry()
@@ -172,7 +190,11 @@ func verifRun(c verifCmd) (a verifAns) {
 			a.Err = err.Error()
 			return
 		}
+		var taken atomic.Int64
+		quit := make(chan struct{})
+		feederDone := make(chan struct{})
 		go func() {
+			defer close(feederDone)
 			base := time.Unix(1700000000, 0)
 			for i := 0; i < c.Results; i++ {
 				r := &vegeta.Result{Attack: "pump", Seq: uint64(i), Code: 200, Timestamp: base.Add(time.Duration(i) * time.Microsecond),
@@ -180,14 +202,24 @@ func verifRun(c verifCmd) (a verifAns) {
 				if c.ErrEvery > 0 && i%c.ErrEvery == 0 {
 					r.Code, r.Error = 500, "500 Internal Server Error"
 				}
-				res <- r
+				select {
+				case res <- r:
+					taken.Add(1)
+				case <-quit: // the pump gave up (write error)
+					return
+				}
 			}
 			close(res)
 		}()
 		if err := processAttack(atk, res, enc, sig, pm); err != nil {
 			a.Err = err.Error()
 		}
-		dec := vegeta.NewDecoder(&buf)
+		// a completed hand-over is counted before the feeder looks at quit again, so after
+		// the feeder has ended the count of results the pump took is exact
+		close(quit)
+		<-feederDone
+		a.Taken = int(taken.Load())
+		dec := vegeta.NewDecoder(&out.buf)
 		for {
 			var r vegeta.Result
 			if dec.Decode(&r) != nil {
